@@ -283,7 +283,7 @@ func containsRate(s string) bool {
 // before its datagram is written).
 func c20positive(c *evid.Ctx, r *gen.Rand, run int) {
 	rt := gen.Pick(r, []float64{50, 500})
-	B := gen.Pick(r, []int{1, 5, 25})
+	B := gen.Pick(r, []int{1, 5, 25, 100})
 	created := simnet.Now()
 	lim := rate.NewLimiter(rate.Limit(rt), B)
 	waitToReply := r.Bool()
@@ -321,7 +321,7 @@ func c20positive(c *evid.Ctx, r *gen.Rand, run int) {
 	var slowDests []*net.UDPAddr
 	for i := 0; i < 8; i++ {
 		a := alloc.V4()
-		slow[a.String()] = time.Duration(r.Range(8, 45)) * time.Millisecond
+		slow[a.String()] = time.Duration(r.Range(30, 60)) * time.Millisecond
 		slowDests = append(slowDests, a)
 	}
 	n.Conn.SetHook(func(d simnet.Datagram) error {
@@ -373,7 +373,13 @@ func c20positive(c *evid.Ctx, r *gen.Rand, run int) {
 			latest = d.At
 		}
 		el := float64(latest-created) / 1e9
-		bound := float64(B) + rt*el + 1
+		// The limiter's own clock is not monotone under concurrent use: every caller reads time.Now()
+		// before it gets the limiter's mutex, and x/time/rate then sets its "last" to that reading even
+		// if a later one was already recorded, so the time a goroutine spends descheduled between the
+		// two is credited twice - once per such call, so the surplus grows with the number of calls.
+		// The budget is the limiter's, so that is tolerated: 20 ms of rewind plus 2% of the allowance
+		// (seen on a loaded machine: 1-2 tokens in 840; a fault that re-credits a burst is far above it).
+		bound := (float64(B)+rt*el)*1.02 + 1 + rt*0.020
 		if float64(i+1) > bound {
 			c.Violation("rated-traffic-exceeds-burst-plus-rate-times-elapsed", fmt.Sprintf("rate=%v/s burst=%d: datagram #%d written %.4fs after the limiter was created; bound %.1f", rt, B, i+1, el, bound), nil)
 			break
